@@ -336,6 +336,36 @@ func ruleWriteBits(c *Ctx, id string) {
 	call := calls[0]
 	sz, ok := constInt(argN(call, 1))
 	R.Check(ok && sz == 1, id, key+"size 1 bit", P.Pos(call.Pos()), "the object written is one bit", "constant 1", "bit-map write is not one bit wide: neighbouring bits of other transactions are overwritten")
+	// address = MkBitAddr(blk, n) with blk the parameter and n the element; bit = 1 << (n % 8)
+	{
+		okAddr := false
+		if ac, ok := stripConv(argN(call, 0)).(*ssa.Call); ok && ac.Call.StaticCallee() != nil && ac.Call.StaticCallee().Name() == "MkBitAddr" {
+			_, isBlk := stripConv(ac.Call.Args[0]).(*ssa.Parameter)
+			// second arg: element of the ranged parameter slice
+			elemOK := false
+			if u, ok := stripConv(ac.Call.Args[1]).(*ssa.UnOp); ok && u.Op == token.MUL {
+				if ia, ok := u.X.(*ssa.IndexAddr); ok {
+					_, elemOK = stripConv(ia.X).(*ssa.Parameter)
+				}
+			}
+			okAddr = isBlk && elemOK
+		}
+		R.Check(okAddr, id, key+"bit address", P.Pos(call.Pos()), "the bit written is bit n of the bitmap starting at block blk (addr.MkBitAddr(blk, n))", "parameters passed through", "the bitmap bit written is not the bit of the number allocated/freed")
+		okBit := false
+		for _, b := range f.Blocks {
+			for _, in := range b.Instrs {
+				if sh, ok := in.(*ssa.BinOp); ok && sh.Op == token.SHL {
+					one, is1 := constInt(stripConv(sh.X))
+					if rem, ok := stripConv(sh.Y).(*ssa.BinOp); ok && rem.Op == token.REM && is1 && one == 1 {
+						if k, isk := constInt(rem.Y); isk && k == 8 {
+							okBit = true
+						}
+					}
+				}
+			}
+		}
+		R.Check(okBit, id, key+"bit value", P.Pos(call.Pos()), "the byte written carries bit 1 << (n % 8)", "shift by n % 8", "wrong bit inside the byte")
+	}
 	// the complement is taken exactly when alloc is false
 	var xor *ssa.UnOp
 	for _, b := range f.Blocks {
@@ -594,7 +624,7 @@ func kvsAPI(P *Program) []*ssa.Function {
 
 func ruleR6(c *Ctx, id string) {
 	V, P, R := c.V, c.P, c.R
-	R.Rule(id, "large frees are self-contained transactions: each DoShrink iteration begins its own transaction, shrinks and commits it; Inode.Shrink persists its progress marker (WriteInode) on every path", 3)
+	R.Rule(id, "large frees are self-contained transactions: each DoShrink iteration begins its own transaction, shrinks and commits it; Inode.Shrink persists its progress marker (WriteInode) on every path", 4)
 	do := c.fn(id, "shrinker.(*ShrinkerSt).DoShrink")
 	if do == nil || V.Shrink == nil {
 		return
@@ -618,6 +648,27 @@ func ruleR6(c *Ctx, id string) {
 			okTxn = cl[argN(s, 0)]
 		}
 		R.Check(okTxn, id, "shrinker.DoShrink|Shrink uses the begun txn", P.Pos(s.Pos()), "Shrink is given the allocation transaction of the FsTxn begun in this iteration", "value flow", "Shrink runs on a different transaction than the one committed")
+	}
+	// the loop runs until Shrink reports that nothing is left (or the commit failed / the shrinker was told to stop)
+	for _, sc := range shr {
+		scv := sc.(*ssa.Call)
+		okLoop := false
+		for _, br := range branches(do) {
+			if br.Cond.Op != token.ILLEGAL {
+				continue
+			}
+			if phi, ok := br.Cond.X.(*ssa.Phi); ok {
+				for _, e := range phi.Edges {
+					if e == ssa.Value(scv) {
+						// true side stays in the loop (reaches the Shrink call again)
+						if len(br.True.Instrs) > 0 && (reachableFrom(br.True.Instrs[0], sc) || br.True == sc.Block()) {
+							okLoop = true
+						}
+					}
+				}
+			}
+		}
+		R.Check(okLoop, id, "shrinker.DoShrink|loops while Shrink reports more", P.Pos(sc.Pos()), "the loop condition is the result of Inode.Shrink: freeing continues until the inode is no longer shrinking", "loop condition carries Shrink's result", "DoShrink stops although blocks remain to be freed: the rest of a large file is never reclaimed (until the inode number is reused)")
 	}
 	// Shrink ends with WriteInode on every path
 	wi := callTo(V.WriteInode)
